@@ -461,3 +461,67 @@ Proof.
   - vm_compute. reflexivity.
   - vm_compute. discriminate.
 Qed.
+
+(* ---- the projection lemmas and the `*` lemmas have satisfiable hypotheses ---- *)
+Definition fxy : list field := [(s!"x", (TStr, None)); (s!"y", (TStr, Some (VStr s!"d")))].
+Definition cols_xy : list col := [([s!"y"], Raw s!"bar"); ([s!"x"], Raw s!"foo"); ([s!"y"], Raw s!"baz")].
+
+Example fold_model_nonvacuous :
+  heads_ok fxy [] cols_xy
+  /\ (forall k ct, field_ty fxy k = Some ct ->
+                   exists o, fold_slot ct (sub_key [] k cols_xy) (slot [] k) = Ok o)
+  /\ foldM (fa (TModel fxy [] [])) cols_xy (ODict []) = Ok (ODict [(s!"y", OStr s!"baz"); (s!"x", OStr s!"foo")]).
+Proof.
+  split; [repeat constructor; vm_compute; discriminate|]. split; [|vm_compute; reflexivity].
+  intros k ct H. unfold field_ty, fxy in H. cbn [field_lookup] in H.
+  unfold cols_xy. cbn [sub_key remap_get oget].
+  destruct (str_eqb s!"x" k) eqn:Ex; destruct (str_eqb s!"y" k) eqn:Ey.
+  - apply str_eqb_eq in Ex. apply str_eqb_eq in Ey. subst k. vm_compute in Ey. discriminate.
+  - injection H as <-. eexists. vm_compute. reflexivity.
+  - injection H as <-. eexists. vm_compute. reflexivity.
+  - discriminate.
+Qed.
+
+Definition cols_12 : list col := [([s!"1"], Raw s!"a"); ([s!"2"], Raw s!"b"); ([s!"1"], Raw s!"c")].
+
+Example fold_list_nonvacuous :
+  idx_scan (List.length (@nil out)) cols_12 = Some 2%nat
+  /\ (forall i, (i < 2)%nat -> exists o, fold_slot (child_ty (TList TStr)) (sub_idx i cols_12) (nth i (@nil out) ONone) = Ok o)
+  /\ foldM (fa (TList TStr)) cols_12 (OList []) = Ok (OList [OStr s!"c"; OStr s!"b"]).
+Proof.
+  split; [vm_compute; reflexivity|]. split; [|vm_compute; reflexivity].
+  intros i Hi. destruct i as [|[|i]]; [| |lia]; eexists; vm_compute; reflexivity.
+Qed.
+
+Example group_len_order_nonvacuous :
+  clean s!"p" = true /\ Permutation.Permutation gcells (rev gcells) /\ gcells <> rev gcells
+  /\ group_len s!"p" gcells = 3%nat /\ group_len s!"p" (rev gcells) = 3%nat.
+Proof.
+  split; [reflexivity|]. split; [apply Permutation.Permutation_rev|]. split; [vm_compute; discriminate|].
+  split; vm_compute; reflexivity.
+Qed.
+
+Example star_columns_enc_nonvacuous :
+  let scs := star_scs 3 gcells in
+  NoDup (map f_name gfields) /\ NoDup (map (star_key []) scs)
+  /\ (forall sc, In sc scs -> field_ty gfields (star_key [] sc) <> None)
+  /\ List.length gvs = star_n scs /\ (0 < star_n scs)%nat
+  /\ (forall i, (i < star_n scs)%nat -> exists fs, nth i gvs (VStr []) = VModel fs /\ star_elem_spec gfields [] scs i fs)
+  /\ Enc (TList (TModel gfields [] [])) None (VList gvs) (star_cols scs).
+Proof.
+  cbv zeta.
+  assert (H1 : NoDup (map f_name gfields)) by nodup.
+  assert (H2 : NoDup (map (star_key []) (star_scs 3 gcells))) by nodup.
+  assert (H3 : forall sc, In sc (star_scs 3 gcells) -> field_ty gfields (star_key [] sc) <> None).
+  { vm_compute. intros sc [<-|[<-|[<-|[]]]]; vm_compute; discriminate. }
+  assert (H4 : List.length gvs = star_n (star_scs 3 gcells)) by (vm_compute; reflexivity).
+  assert (H5 : (0 < star_n (star_scs 3 gcells))%nat) by (vm_compute; lia).
+  assert (H6 : forall i, (i < star_n (star_scs 3 gcells))%nat ->
+                 exists fs, nth i gvs (VStr []) = VModel fs /\ star_elem_spec gfields [] (star_scs 3 gcells) i fs).
+  { replace (star_n (star_scs 3 gcells)) with 3%nat by (vm_compute; reflexivity).
+    intros i Hi. destruct i as [|[|[|i]]]; [| | |lia]; eexists; (split; [reflexivity|]);
+      unfold star_elem_spec; vm_compute;
+      repeat (apply Forall2_cons; [split; [reflexivity|first [reflexivity|apply NvStr]]|]); apply Forall2_nil. }
+  repeat (split; [assumption|]).
+  apply star_columns_enc; assumption.
+Qed.
